@@ -23,7 +23,7 @@ _C10_HIST_OPTS = {"solver": "z3-new-t", "timeout_ms": 30000, "thorough": {"budge
 _C10_FUNC_OPTS = {"solver": "cvc5", "timeout_ms": 120000}
 
 PROPS["C10"] = {
-    "bounds": "histories from the empty state of exactly 3 events (all shorter ones are their prefixes; every assertion is checked after each event) over {tick, point a1, point b1} (quick: all except those starting b1,a1 or b1,b1, which mirror a1,b1 / a1,a1 and run in the thorough tier) with regex ^(a|b)[0-9]$ and outFmt $1, function sum, Interval 10, symbolic Wait < 2^16, symbolic uint32 timestamps, unconstrained float64 values, symbolic non-decreasing clock (uint32 start, 16-bit advances, now >= Wait), tick instant anywhere between the previous tick instant and the clock; histories of 2 events for each of the ten functions, for 3-4 names incl. two names sharing a key and a non-matching name with the cache on, for outFmt without capture group, for Interval symbolic in [1,2^16) and Interval in {1,60}; thorough: 3 events for every function, with symbolic Interval, with 3 names + cache, and 4 events over {tick, point a1}; one-step induction: arbitrary pre-state satisfying the invariant (tsList strictly ascending = open first-level buckets, buckets holding a processor start at or above the previous cutoff+1 <= now-Wait+1) with <= 2 (thorough 3) first-level buckets x key subsets of {a,b}, arbitrary bucket starts and accumulated sums, one arbitrary event, function sum, Interval 10 (thorough symbolic): covers histories of any length with at most that many simultaneously open first-level buckets; functions in isolation: 1..3 values per bucket, finite float64 of magnitude <= 1e300 with symbolic uint32 timestamps",
+    "bounds": "histories from the empty state of exactly 3 events (all shorter ones are their prefixes; every assertion is checked after each event) over {tick, point a1, point b1} (quick: all except those starting b1,a1 or b1,b1, which mirror a1,b1 / a1,a1 and run in the thorough tier) with regex ^(a|b)[0-9]$ and outFmt $1, function sum, Interval 10, symbolic Wait < 2^16, symbolic uint32 timestamps, unconstrained float64 values, symbolic non-decreasing clock (uint32 start, 16-bit advances, now >= Wait), tick instant anywhere between the previous tick instant and the clock; histories of 2 events for each of the ten functions, for 3-4 names incl. two names sharing a key and a non-matching name with the cache on, for outFmt without capture group, derive with two output names in play over the pinned 4-event histories (point a, point b, point b, tick) and (b, b, a, tick) with 16-bit timestamps, for Interval symbolic in [1,2^16) and Interval in {1,60}; thorough: 3 events for every function, with symbolic Interval, with 3 names + cache, and 4 events over {tick, point a1}; one-step induction: arbitrary pre-state satisfying the invariant (tsList strictly ascending = open first-level buckets, buckets holding a processor start at or above the previous cutoff+1 <= now-Wait+1) with <= 2 (thorough 3) first-level buckets x key subsets of {a,b}, arbitrary bucket starts and accumulated sums, one arbitrary event, function sum, Interval 10 (thorough symbolic): covers histories of any length with at most that many simultaneously open first-level buckets; functions in isolation: 1..3 values per bucket, finite float64 of magnitude <= 1e300 with symbolic uint32 timestamps",
     "outside": "NaN/Inf values inside the functions (harness B; harness A passes unconstrained float64 values, NaN excluded for percentiles only); more than 3 values per bucket and more than 3 (4) events; %f rendering of the value (the engine compares the float64 handed to fmt.Sprintf, the native replay compares to 1e-6); the real wall-clock ticker clock.AlignedTick; clocks that go backwards and now < Wait (unsigned wrap-around of now-Wait); Interval 0 (C14); the snapshot and shutdown branches of run(); math.Pow(x,2) is modelled as x*x",
     "assumptions": ["non-decreasing harness clock, now >= Wait", "a late point (bucket start <= now-Wait) for a bucket that was not yet emitted may either contribute to the still open bucket or be counted as too old - exactly one of the two (DESIGN.md ghost model)", "derive emits no line for a bucket with fewer than two distinct timestamps (the property text says one line per bucket; the derivative is undefined there - flagged, not counted as a violation)", "the timestamp range tracker (statistics only) has already seen both extreme timestamps, so its comparisons do not fork"],
     "groups": [
@@ -49,6 +49,9 @@ PROPS["C10"] = {
         {"pkg": "aggregator", "hdir": "aggregator", "opts": _C10_HIST_OPTS,
          "specs": [_c10_hist("percentiles/2ev/3names/cache/I=60", fun="percentiles", names="xxx", cache="1", intervals="60"),
                    _c10_hist("derive/2ev/no-capture-group", fun="derive", outfmt="out"),
+                   # two output names in one bucket, one of them without a derivative (one point), then a tick
+                   _c10_hist("derive/4ev/a,b,b,tick", fun="derive", events="xxxx", first="1,2,2,0", narrow="1"),
+                   _c10_hist("derive/4ev/b,b,a,tick", fun="derive", events="xxxx", first="2,2,1,0", narrow="1"),
                    _c10_hist("sum/2ev/4names/cache", names="xxxx", cache="1"),
                    _c10_hist("sum/2ev/I=symbolic", intervals="sym"),
                    _c10_hist("sum/2ev/I=1,60", intervals="1,60"),
